@@ -262,6 +262,14 @@ Section EvalFamily.
       destruct (eval_fs (ECons a (ECons b ENil)) root ctx cur key) as [vs|e] eqn:Hev; [|exact IH].
       apply eval_fs_two in Hev as (va & vb & ->). cbn [bind unpack_args].
       destruct (unpack_arg TValue va) as [?|[]| |], (unpack_arg TValue vb) as [?|[]| |]; exact I. }
+    destruct (ustr_eqb name name_typeof) eqn:HT.
+    { apply ustr_eqb_spec in HT. subst name.
+      change (gate_sig name_typeof) with (Some ([GNodes], GValue)) in Hsig.
+      apply args_one in Hsig as (a & -> & Ha). apply nodes_arg_query in Ha.
+      destruct (eval_fs (ECons a ENil) root ctx cur key) as [vs|e] eqn:Hev; [|exact IH].
+      apply eval_fs_one in Hev as (v & Hv & ->).
+      destruct (query_value a root ctx cur key v Ha Hv) as (ns & ->).
+      destruct ns as [|n [|n' ns]]; exact I. }
     right. reflexivity.
   Qed.
 
